@@ -2,6 +2,12 @@
 //!
 //! Case grammar:
 //!   tab <op>;<op>;…       one history on a fresh `VerifTablets` (see lean/ScyllaVerif/Drive/C15.lean for the ops)
+//!   cs <op>;<op>;…        one history on a real `ClusterState` (`ClusterState::new`, `update_tablets`, `new_updated`):
+//!                         `P<id>[@<dc>[/<rack>]],…` topology (first) / metadata refresh, `L<t>:<first>:<last>:<reps>` learn,
+//!                         `s<t>:<lo>:<hi>` / `d<t>:<token>@<dc>` lookups through `replica_locator()`.  Oracle after every
+//!                         step: every replica answered for any token is a current peer and the current `Node` object,
+//!                         and the answer is what the history shadow says (tablets with a replica on a host that left
+//!                         are gone, every other tablet is still there).
 //!   payload <hex>         `RawTablet::from_custom_payload` on the cell bytes stored under the tablets key
 //!   exh <A|B> <depth> <i,j,…|->   every history of `depth` more operations of a small alphabet over the token
 //!                         universe 0..=5 after the given prefix; output = number of histories visited + digest of
@@ -18,7 +24,13 @@ use crate::rng::Rng;
 use crate::util::{hex, unhex};
 use crate::{Ctx, Tier};
 use bytes::Bytes;
+use scylla::cluster::metadata::Strategy;
+use scylla::cluster::{ClusterState, Node};
+use scylla::frame::response::result::TableSpec;
+use scylla::routing::Token;
+use scylla::verif_hooks::cluster::{KeyspaceSpec, NodeSpec, cluster_from_topology_with_tablets, cluster_refresh};
 use scylla::verif_hooks::tablets::{TabletView, VerifTablets, raw_tablet_from_payload};
+use std::sync::Arc;
 use std::collections::HashMap;
 use std::panic::{AssertUnwindSafe, catch_unwind};
 use uuid::Uuid;
@@ -696,10 +708,269 @@ fn run_payload(arg: &str, ctx: &mut Ctx) -> String {
     }
 }
 
+// ------------------------------------------------------------------------------------------------
+// refresh histories on the real ClusterState
+// ------------------------------------------------------------------------------------------------
+
+thread_local! {
+    static RT: tokio::runtime::Runtime =
+        tokio::runtime::Builder::new_current_thread().enable_all().build().unwrap();
+}
+
+#[derive(Clone, Debug, PartialEq, Eq)]
+struct CsPeer {
+    id: u32,
+    dc: Option<String>,
+    rack: Option<String>,
+}
+
+fn parse_cs_peers(s: &str) -> Option<Vec<CsPeer>> {
+    if s.is_empty() {
+        return None;
+    }
+    let mut v: Vec<CsPeer> = Vec::new();
+    for part in s.split(',') {
+        let p = match part.split_once('@') {
+            None => CsPeer { id: part.parse().ok()?, dc: None, rack: None },
+            Some((a, loc)) => {
+                if loc.contains('@') {
+                    return None;
+                }
+                let id = a.parse().ok()?;
+                match loc.split_once('/') {
+                    None => CsPeer { id, dc: Some(loc.to_owned()), rack: None },
+                    Some((d, r)) => {
+                        if r.contains('/') {
+                            return None;
+                        }
+                        CsPeer { id, dc: Some(d.to_owned()), rack: Some(r.to_owned()) }
+                    }
+                }
+            }
+        };
+        if v.iter().any(|q| q.id == p.id) {
+            return None;
+        }
+        v.push(p);
+    }
+    Some(v)
+}
+
+struct CsRunner {
+    cs: Option<ClusterState>,
+    peers: Vec<CsPeer>,
+    nodes: HashMap<u32, Option<String>>,
+    tables: [TableShadow; 2],
+}
+
+impl CsRunner {
+    fn specs(peers: &[CsPeer]) -> (Vec<NodeSpec>, Vec<KeyspaceSpec>, HashMap<String, Vec<String>>) {
+        let nodes = peers
+            .iter()
+            .map(|p| NodeSpec {
+                host_id: uuid_of(p.id),
+                datacenter: p.dc.clone(),
+                rack: p.rack.clone(),
+                tokens: vec![p.id as i64 * 1000 + 7],
+                enabled: true,
+                connected: true,
+            })
+            .collect();
+        let ks = vec![KeyspaceSpec { name: "k0".to_owned(), strategy: Strategy::SimpleStrategy { replication_factor: 1 } }];
+        let mut tt = HashMap::new();
+        tt.insert("k0".to_owned(), vec!["t0".to_owned(), "t1".to_owned()]);
+        (nodes, ks, tt)
+    }
+
+    fn answer(&self, t: usize, tok: i64, dc: Option<&str>) -> Vec<(u32, u32, bool)> {
+        let cs = self.cs.as_ref().unwrap();
+        let spec = TableSpec::owned("k0".to_owned(), format!("t{}", t));
+        let st = Strategy::SimpleStrategy { replication_factor: 1 };
+        cs.replica_locator()
+            .replicas_for_token(Token::new(tok), &st, dc, &spec)
+            .into_iter()
+            .map(|(n, s): (&Arc<Node>, u32)| {
+                let current = cs.get_node_by_host_id(n.host_id).is_some_and(|m| Arc::ptr_eq(m, n));
+                (n.host_id.as_u128() as u32, s, current)
+            })
+            .collect()
+    }
+
+    /// the property on one answer
+    fn check_answer(&self, t: usize, tok: i64, ctx: &mut Ctx) -> Vec<(u32, u32)> {
+        let got = self.answer(t, tok, None);
+        for (id, _, current) in &got {
+            if !self.peers.iter().any(|p| p.id == *id) {
+                ctx.fail(format!(
+                    "table t{} token {}: replica on host {} which is not in the current peer set (stale tablet served)",
+                    t, tok, id
+                ));
+            } else if !current {
+                ctx.fail(format!("table t{} token {}: replica on host {} points to a replaced Node object", t, tok, id));
+            }
+        }
+        let got: Vec<(u32, u32)> = got.into_iter().map(|(i, s, _)| (i, s)).collect();
+        let want = self.tables[t].lookup(token_new(tok)).map(|e| e.resolved.clone()).unwrap_or_default();
+        if got != want {
+            ctx.fail(format!(
+                "table t{} token {}: answered {} but the tablets learnt and still valid say {}",
+                t,
+                tok,
+                show_reps(&got),
+                show_reps(&want)
+            ));
+        }
+        got
+    }
+
+    /// every token at or next to an end of any range ever learnt
+    fn check_all(&self, ctx: &mut Ctx) {
+        for t in 0..2 {
+            let mut toks: Vec<i64> = Vec::new();
+            for e in &self.tables[t].entries {
+                for x in [e.first, e.last] {
+                    toks.extend([x.saturating_sub(1), x, x.saturating_add(1)]);
+                }
+            }
+            toks.sort();
+            toks.dedup();
+            for tok in toks {
+                self.check_answer(t, tok, ctx);
+            }
+        }
+    }
+
+    fn op(&mut self, op: &str, ctx: &mut Ctx) -> Option<String> {
+        let c = op.chars().next()?;
+        let arg = &op[c.len_utf8()..];
+        let out = match c {
+            'P' => {
+                let peers = parse_cs_peers(arg)?;
+                let (nodes, ks, tt) = Self::specs(&peers);
+                let before: Vec<(u32, Arc<Node>)> = match &self.cs {
+                    None => vec![],
+                    Some(cs) => {
+                        self.peers.iter().filter_map(|p| cs.get_node_by_host_id(uuid_of(p.id)).map(|n| (p.id, Arc::clone(n)))).collect()
+                    }
+                };
+                let new_cs = RT.with(|rt| {
+                    rt.block_on(async {
+                        match &self.cs {
+                            None => cluster_from_topology_with_tablets(&nodes, &ks, &tt).await,
+                            Some(prev) => cluster_refresh(prev, &nodes, &ks, &tt).await,
+                        }
+                    })
+                });
+                let mut kept: Vec<u32> = before
+                    .iter()
+                    .filter(|(id, n)| new_cs.get_node_by_host_id(uuid_of(*id)).is_some_and(|m| Arc::ptr_eq(m, n)))
+                    .map(|(id, _)| *id)
+                    .collect();
+                kept.sort();
+                // the shadow: hosts that left, hosts now known
+                let removed: Vec<u32> = self.peers.iter().map(|p| p.id).filter(|id| !peers.iter().any(|q| q.id == *id)).collect();
+                self.nodes = peers.iter().map(|p| (p.id, p.dc.clone())).collect();
+                for t in self.tables.iter_mut() {
+                    t.maintenance(&removed, &self.nodes);
+                }
+                self.peers = peers;
+                self.cs = Some(new_cs);
+                format!("P{}", crate::util::nat_list(&kept))
+            }
+            'L' => {
+                self.cs.as_ref()?;
+                let parts: Vec<&str> = arg.split(':').collect();
+                if parts.len() != 4 {
+                    return None;
+                }
+                let t: usize = match parts[0] {
+                    "0" => 0,
+                    "1" => 1,
+                    _ => return None,
+                };
+                let f: i64 = parts[1].parse().ok()?;
+                let l: i64 = parts[2].parse().ok()?;
+                let reps = parse_reps(parts[3])?;
+                if token_new(f) > token_new(l) {
+                    return None;
+                }
+                self.cs.as_mut().unwrap().verif_update_tablets(&[("k0".to_owned(), format!("t{}", t), f, l, to_uuid_reps(&reps))]);
+                self.tables[t].insert(token_new(f), token_new(l), &reps, &self.nodes);
+                "L".to_owned()
+            }
+            's' => {
+                self.cs.as_ref()?;
+                let parts: Vec<&str> = arg.split(':').collect();
+                if parts.len() != 3 {
+                    return None;
+                }
+                let t: usize = match parts[0] {
+                    "0" => 0,
+                    "1" => 1,
+                    _ => return None,
+                };
+                let lo: i64 = parts[1].parse().ok()?;
+                let hi: i64 = parts[2].parse().ok()?;
+                if !(lo <= hi && (hi as i128 - lo as i128) <= 64) {
+                    return None;
+                }
+                (lo..=hi).map(|tok| show_reps(&self.check_answer(t, tok, ctx))).collect::<Vec<_>>().join("/")
+            }
+            'd' => {
+                self.cs.as_ref()?;
+                let (a, dc) = arg.split_once('@')?;
+                if dc.contains('@') {
+                    return None;
+                }
+                let (t, tok) = a.split_once(':')?;
+                let t: usize = match t {
+                    "0" => 0,
+                    "1" => 1,
+                    _ => return None,
+                };
+                let tok: i64 = tok.parse().ok()?;
+                let got: Vec<(u32, u32)> = self.answer(t, tok, Some(dc)).into_iter().map(|(i, s, _)| (i, s)).collect();
+                let want: Vec<(u32, u32)> = self
+                    .check_answer(t, tok, ctx)
+                    .into_iter()
+                    .filter(|(id, _)| self.nodes.get(id).map(|d| d.as_deref() == Some(dc)).unwrap_or(false))
+                    .collect();
+                if got != want {
+                    ctx.fail(format!(
+                        "table t{} token {} datacenter {}: answered {} but the full list restricted to it is {}",
+                        t,
+                        tok,
+                        dc,
+                        show_reps(&got),
+                        show_reps(&want)
+                    ));
+                }
+                show_reps(&got)
+            }
+            _ => return None,
+        };
+        self.check_all(ctx);
+        Some(out)
+    }
+}
+
+fn run_cs(ops: &str, ctx: &mut Ctx) -> String {
+    let mut r = CsRunner { cs: None, peers: vec![], nodes: HashMap::new(), tables: [TableShadow::default(), TableShadow::default()] };
+    let mut outs = Vec::new();
+    for op in ops.split(';').filter(|o| !o.is_empty()) {
+        match r.op(op, ctx) {
+            Some(o) => outs.push(o),
+            None => return "bad-case".to_owned(),
+        }
+    }
+    outs.join(";")
+}
+
 pub fn run(case: &str, ctx: &mut Ctx) -> String {
     let w: Vec<&str> = case.split_whitespace().collect();
     match w.as_slice() {
         ["tab", ops] => run_tab(ops, ctx),
+        ["cs", ops] => run_cs(ops, ctx),
         ["payload", arg] => run_payload(arg, ctx),
         ["exh", alpha, depth, pre] => run_exh(alpha, depth, pre, ctx),
         _ => "bad-case".to_owned(),
@@ -984,6 +1255,153 @@ fn gen_payload(rng: &mut Rng) -> String {
     format!("payload {}", hex(&p))
 }
 
+fn fmt_cs_peers(peers: &[CsPeer]) -> String {
+    peers
+        .iter()
+        .map(|p| match (&p.dc, &p.rack) {
+            (None, _) => format!("{}", p.id),
+            (Some(d), None) => format!("{}@{}", p.id, d),
+            (Some(d), Some(r)) => format!("{}@{}/{}", p.id, d, r),
+        })
+        .collect::<Vec<_>>()
+        .join(",")
+}
+
+fn fresh_cs_peer(rng: &mut Rng, peers: &[CsPeer], max_id: u32) -> Option<CsPeer> {
+    let free: Vec<u32> = (0..max_id).filter(|i| !peers.iter().any(|p| p.id == *i)).collect();
+    if free.is_empty() {
+        return None;
+    }
+    let dc = if rng.chance(1, 12) { None } else { Some(rng.pick(&DCS).to_string()) };
+    let rack = if dc.is_some() && rng.bool() { Some(format!("r{}", rng.below(2))) } else { None };
+    Some(CsPeer { id: *rng.pick(&free), dc, rack })
+}
+
+/// one metadata refresh: removals, additions, replacement in ONE refresh (remove k, add >= k), same-size swaps,
+/// re-created nodes (datacenter / rack / address changed), and the refresh that changes nothing
+fn gen_refresh(rng: &mut Rng, peers: &mut Vec<CsPeer>, max_id: u32) {
+    match rng.below(12) {
+        // replacement: k hosts leave, k..k+2 new hosts come (the map grows or keeps its size)
+        0..=3 => {
+            let k = (1 + rng.below(2) as usize).min(peers.len().saturating_sub(1));
+            let extra = rng.below(3) as usize;
+            let in_place = rng.bool();
+            for _ in 0..k {
+                let i = rng.below(peers.len() as u64) as usize;
+                match fresh_cs_peer(rng, peers, max_id) {
+                    Some(n) if in_place => peers[i] = n,
+                    Some(n) => {
+                        peers.remove(i);
+                        peers.push(n);
+                    }
+                    None => {
+                        if peers.len() > 1 {
+                            peers.remove(i);
+                        }
+                    }
+                }
+            }
+            for _ in 0..extra {
+                if let Some(n) = fresh_cs_peer(rng, peers, max_id) {
+                    peers.push(n);
+                }
+            }
+        }
+        // removal only
+        4 | 5 => {
+            let k = 1 + rng.below(2) as usize;
+            for _ in 0..k {
+                if peers.len() > 1 {
+                    let i = rng.below(peers.len() as u64) as usize;
+                    if rng.bool() {
+                        peers.remove(i);
+                    } else {
+                        // the last host takes the place of the removed one (no other address changes)
+                        peers.swap_remove(i);
+                    }
+                }
+            }
+        }
+        // addition only
+        6 | 7 => {
+            for _ in 0..1 + rng.below(3) {
+                if let Some(n) = fresh_cs_peer(rng, peers, max_id) {
+                    if rng.bool() {
+                        peers.push(n);
+                    } else {
+                        let i = rng.below(peers.len() as u64 + 1) as usize;
+                        peers.insert(i, n);
+                    }
+                }
+            }
+        }
+        // re-creation: datacenter / rack changed, or the address (position) changed
+        8 | 9 => {
+            let i = rng.below(peers.len() as u64) as usize;
+            match rng.below(3) {
+                0 => peers[i].dc = Some(rng.pick(&DCS).to_string()),
+                1 => peers[i].rack = if peers[i].dc.is_some() { Some(format!("r{}", rng.below(3))) } else { None },
+                _ => {
+                    let j = rng.below(peers.len() as u64) as usize;
+                    peers.swap(i, j);
+                }
+            }
+        }
+        // re-creation and replacement in the same refresh
+        10 => {
+            let i = rng.below(peers.len() as u64) as usize;
+            peers[i].dc = Some(rng.pick(&DCS).to_string());
+            let j = rng.below(peers.len() as u64) as usize;
+            if let Some(n) = fresh_cs_peer(rng, peers, max_id) {
+                peers[j] = n;
+            }
+        }
+        // nothing changes
+        _ => {}
+    }
+}
+
+fn cs_history(rng: &mut Rng, len: usize) -> String {
+    let max_id = 6 + rng.below(5) as u32;
+    let mut peers: Vec<CsPeer> = Vec::new();
+    for _ in 0..2 + rng.below(4) {
+        if let Some(p) = fresh_cs_peer(rng, &peers, max_id) {
+            peers.push(p);
+        }
+    }
+    let mut ops = vec![format!("P{}", fmt_cs_peers(&peers))];
+    let universe = 12 + rng.below(12) as i64;
+    while ops.len() < len {
+        match rng.below(100) {
+            0..=44 => {
+                let a = rng.range(0, universe);
+                let b = (a + match rng.below(3) { 0 => 0, 1 => rng.range(0, 3), _ => rng.range(0, universe) }).min(universe);
+                // replicas: mostly current peers, sometimes a host not (yet) known
+                let n = 1 + rng.below(3);
+                let reps: Vec<String> = (0..n)
+                    .map(|_| {
+                        let id = if rng.chance(1, 7) { rng.below(max_id as u64) as u32 } else { rng.pick(&peers).id };
+                        format!("{}.{}", id, rng.below(3))
+                    })
+                    .collect();
+                ops.push(format!("L{}:{}:{}:{}", rng.below(2), a, b, reps.join(",")));
+            }
+            45..=69 => {
+                gen_refresh(rng, &mut peers, max_id);
+                ops.push(format!("P{}", fmt_cs_peers(&peers)));
+                if rng.chance(2, 3) {
+                    ops.push(format!("s{}:0:{}", rng.below(2), universe));
+                }
+            }
+            70..=84 => ops.push(format!("s{}:-1:{}", rng.below(2), universe + 1)),
+            _ => ops.push(format!("d{}:{}@{}", rng.below(2), rng.range(0, universe), rng.pick(&DCS))),
+        }
+    }
+    ops.push(format!("s0:0:{}", universe));
+    ops.push(format!("s1:0:{}", universe));
+    format!("cs {}", ops.join(";"))
+}
+
 pub fn generate(rng: &mut Rng, tier: Tier, emit: &mut dyn FnMut(String)) {
     let quick = tier == Tier::Quick;
     let mut light: Vec<String> = Vec::new();
@@ -1059,7 +1477,16 @@ pub fn generate(rng: &mut Rng, tier: Tier, emit: &mut dyn FnMut(String)) {
         let len = rng.range(4, 60) as usize;
         light.push(info_history(rng, len));
     }
-    // 5. payloads
+    // 5. refresh histories on the real ClusterState (how removed / re-created hosts are derived from old vs new peers)
+    for _ in 0..2500 * scale {
+        let len = match rng.below(3) {
+            0 => rng.range(3, 8) as usize,
+            1 => rng.range(8, 25) as usize,
+            _ => rng.range(25, 60) as usize,
+        };
+        light.push(cs_history(rng, len));
+    }
+    // 6. payloads
     light.push("payload absent".to_owned());
     for _ in 0..4000 * scale {
         light.push(gen_payload(rng));
